@@ -111,9 +111,27 @@ def check_cfg(F, R, cfg):
             (R.ok if ms[0]["vis"] != "pub" else R.viol)("C03.encapsulation", I("module " + mod), "visibility %s" % ms[0]["vis"] if ms[0]["vis"] != "pub" else "internal module is public")
 
     # ------------------------------------------------------------------ decoder
-    s1 = fn("curve25519_dalek::edwards::decompress::step_1")
-    s2 = fn("curve25519_dalek::edwards::decompress::step_2")
+    def fn_quiet(path):
+        try:
+            return F.fn(path)
+        except LookupError:
+            return None
     dec = fn("curve25519_dalek::edwards::CompressedEdwardsY::decompress")
+    s1 = fn_quiet("curve25519_dalek::edwards::decompress::step_1")
+    s2 = fn_quiet("curve25519_dalek::edwards::decompress::step_2")
+    if dec and not (s1 and s2):
+        # the private helpers the structural rules are anchored on were renamed / dissolved: the decoder is decided semantically instead -
+        # the FORMULA instances for both sign bits (what is computed from a valid y) and the decision table on sqrt_ratio_i's flag (when Some is returned)
+        import tables
+        codec_results(F, a["variants"][0]["fields"][X]["ty"])
+        f_ok = FORMULA_OK.get((id(F), "CompressedEdwardsY::decompress[sign bit 0]")) and FORMULA_OK.get((id(F), "CompressedEdwardsY::decompress[sign bit 1]"))
+        t_ok, t_msg = tables.decision_table(F, dec, [(r"FieldElement\w*>?::sqrt_ratio_i$|::sqrt_ratio_i$", 2, {"valid": 0})], ["valid"], {"valid": 1})
+        if f_ok and t_ok:
+            R.ok("C03.decode.semantic", I("CompressedEdwardsY::decompress"), "decompress::step_1 / step_2 not found; decided semantically: C03.formula for both sign bits; " + t_msg)
+        else:
+            s1 = fn("curve25519_dalek::edwards::decompress::step_1")
+            s2 = fn("curve25519_dalek::edwards::decompress::step_2")
+            R.viol("C03.decode.semantic", I("CompressedEdwardsY::decompress"), "the decoder's private helpers were not found and the semantic rules do not decide it: %s" % (t_msg if not t_ok else "C03.formula does not hold for both sign bits"), F.loc(dec))
     if s1 and s2 and dec:
         v1 = view(F, s1)
         ret = [s for s in v1.exit_sites()]
